@@ -55,7 +55,7 @@ theorem refs_of_sub {s s' : DState} (hs : StateSub s s') (hx : s'.d.index = s.d.
   · exact Or.inr (Or.inl ⟨c, hc c hc', he⟩)
   · obtain ⟨w, hw, hws⟩ := hs.invs v hv
     simp only [Invk.shapeC, Prod.mk.injEq] at hws
-    exact Or.inr (Or.inr (Or.inl ⟨w, hw, hws.2.2.trans he⟩))
+    exact Or.inr (Or.inr (Or.inl ⟨w, hw, hws.2.2.1.trans he⟩))
   · exact Or.inr (Or.inr (Or.inr ⟨e, hx ▸ he, hk⟩))
 
 /-! ### the index is touched only by REGISTER / UNREGISTER / session removal -/
@@ -148,19 +148,20 @@ theorem dispatch_index (env : DEnv) (s : DState) (caller : SessKey) (req : Nat) 
 theorem syncCall_index (env : DEnv) (s : DState) (caller : SessKey) (req : Nat) (opts : Dict) (proc : String)
     (args : List WVal) (kw : Dict) (rnd : Nat) :
     (syncCall env s caller req opts proc args kw rnd).st.d.index = s.d.index := by
-  have hnp : (noProc env s caller req).st.d.index = s.d.index := by
-    unfold noProc
-    split
-    · exact syncCancel_index ..
-    · rfl
   rw [syncCall_eq]
   split
-  · exact hnp
   · split
-    · exact hnp
+    · rfl
+    · split
+      · rfl
+      · unfold laterChunk
+        exact dispatch_index env { s with d := s.d.setInv _ } ..
+  · split
+    · rfl
     · split
       · rfl
       · split
+        · rfl
         · split
           · rfl
           · rw [firstChunk_eq]
@@ -168,10 +169,6 @@ theorem syncCall_index (env : DEnv) (s : DState) (caller : SessKey) (req : Nat) 
             · rfl
             · rfl
             · exact dispatch_index env (recordCall _ _ _) ..
-        · split
-          · rfl
-          · unfold laterChunk
-            exact dispatch_index env { s with d := s.d.setInv _ } ..
 
 /-! ### (1) references -/
 
@@ -198,10 +195,10 @@ theorem syncCall_refs_sub {env : DEnv} {s : DState} (h : DealerInv s) (caller : 
   · rcases syncCall_calls_sub h caller req opts proc args kw rnd c hc with hc | rfl
     · exact Or.inl (Or.inr (Or.inl ⟨c, hc, he⟩))
     · exact Or.inr he.symm
-  · rcases hinvs v hv with ⟨w, hw, hws⟩ | ⟨_, _, _, id, hc⟩
+  · rcases hinvs v hv with ⟨w, hw, hws⟩ | ⟨_, _, _, hc⟩
     · simp only [Invk.shapeC, Prod.mk.injEq] at hws
-      exact Or.inl (Or.inr (Or.inr (Or.inl ⟨w, hw, hws.2.2.trans he⟩)))
-    · exact Or.inl (Or.inl ⟨id, he ▸ hc⟩)
+      exact Or.inl (Or.inr (Or.inr (Or.inl ⟨w, hw, hws.2.2.1.trans he⟩)))
+    · exact Or.inl (Or.inl ⟨v.regId, he ▸ hc⟩)
   · rw [syncCall_index] at he
     exact Or.inl (Or.inr (Or.inr (Or.inr ⟨e, he, hk⟩)))
 
@@ -322,63 +319,27 @@ theorem syncYield_sends_to {env : DEnv} {s : DState} (h : DealerInv s) (callee :
 theorem syncCall_sends_to {env : DEnv} {s : DState} (h : DealerInv s) (caller : SessKey) (req : Nat) (opts : Dict)
     (proc : String) (args : List WVal) (kw : Dict) (rnd : Nat) :
     ∀ x ∈ (syncCall env s caller req opts proc args kw rnd).sends, s.refs x.to ∨ x.to = caller := by
-  intro x hx
-  have hnp : ∀ y ∈ (noProc env s caller req).sends, s.refs y.to ∨ y.to = caller := by
-    unfold noProc
-    split
-    · intro y hy; exact Or.inl (syncCancel_sends_to h _ _ _ _ _ y hy)
-    · intro y hy; simp only [List.mem_singleton] at hy; subst hy; exact Or.inr rfl
-  cases hi : x.msg.isInvocation with
-  | true =>
-    obtain ⟨_, hform⟩ := syncCall_invocations h caller req opts proc args kw rnd x hx hi
-    cases hform with
-    | first reg reg' callee hmm hb hp hr hf =>
-      exact Or.inl (Or.inl ⟨reg.id, reg, matchProcedure_mem hmm, rfl, (pickCallee_mem hp).1⟩)
-    | later reg iid v0 hmm hb hfi hf =>
-      exact Or.inl (Or.inr (Or.inr (Or.inl ⟨v0, (findInv_some_mem hfi).1, rfl⟩)))
-  | false =>
-    rw [syncCall_eq] at hx
-    split at hx
-    · exact hnp x hx
-    · rename_i reg hm
-      have hmem := matchProcedure_mem hm
-      split at hx
-      · exact hnp x hx
-      · split at hx
-        · simp only [List.mem_singleton] at hx; subst hx; exact Or.inr rfl
-        · split at hx
-          · rename_i hb
-            have hc0 : (⟨caller, req⟩ : ReqId) ∉ s.d.calls := by
-              intro hc'
-              obtain ⟨i, _, hb', _⟩ := h.call.lookup hc'
-              rw [hb] at hb'; cases hb'
-            split at hx
-            · cases hx
-            · rename_i callee reg' hp
-              have hs := (pickCallee_shape hp).1
-              cases hr : callRefusal env s.d.allowDisclose reg caller callee opts with
-              | some r =>
-                rw [firstChunk_eq, hr] at hx
-                cases r <;> (simp only [List.mem_singleton] at hx; subst hx; exact Or.inr rfl)
-              | none =>
-                cases hf : env.full callee with
-                | false =>
-                  rw [firstChunk_ok args kw reg' hr hf] at hx
-                  simp only [List.mem_singleton] at hx; subst hx; cases hi
-                | true =>
-                  rw [(firstChunk_full h hmem args kw (proc := proc) hs hc0 hr hf).1] at hx
-                  simp only [List.mem_singleton] at hx; subst hx; exact Or.inr rfl
-          · rename_i iid hb
-            split at hx
-            · cases hx
-            · rename_i v0 hfi
-              cases hf : env.full v0.callee with
-              | false =>
-                rw [laterChunk_ok reg caller req opts args kw iid hf] at hx
-                simp only [List.mem_singleton] at hx; subst hx; cases hi
-              | true =>
-                rw [(laterChunk_full h reg opts args kw hb hfi hf).1] at hx
-                simp only [List.mem_singleton] at hx; subst hx; exact Or.inr rfl
+  intro x
+  refine syncCall_cases (env := env) (P := fun o => x ∈ o.sends → s.refs x.to ∨ x.to = caller) h caller req opts proc
+    args kw rnd ?_ ?_ ?_ ?_ ?_ ?_ ?_ ?_
+  · intro _ hx
+    simp only [progressAbort, List.mem_singleton] at hx; subst hx; exact Or.inr rfl
+  · intro iid v0 _ _ hv0 _ _ _ _ hx
+    simp only [List.mem_singleton] at hx; subst hx
+    exact Or.inl (Or.inr (Or.inr (Or.inl ⟨v0, hv0, rfl⟩)))
+  · intro iid v0 _ _ _ _ _ _ _ hx
+    simp only [fullOut, List.mem_singleton] at hx; subst hx; exact Or.inr rfl
+  · intro _ _ _ hx
+    simp only [List.mem_singleton] at hx; subst hx; exact Or.inr rfl
+  · intro reg reg' callee e _ _ _ _ _ _ _ hx
+    simp only [List.mem_singleton] at hx; subst hx; exact Or.inr rfl
+  · intro reg reg' callee _ _ _ _ _ _ _ hx
+    simp only [List.mem_singleton] at hx; subst hx; exact Or.inr rfl
+  · intro reg reg' callee _ _ _ hmem hp _ _ _ hx
+    simp only [List.mem_singleton] at hx; subst hx
+    exact Or.inl (Or.inl ⟨reg.id, reg, hmem, rfl, (pickCallee_mem hp).1⟩)
+  · intro reg reg' callee _ _ _ _ _ _ _ _ hx
+    simp only [fullOut, List.mem_singleton] at hx; subst hx; exact Or.inr rfl
 
 theorem syncRegister_sends_to (s : DState) (callee : SessKey) (req : Nat) (proc m invoke : String)
     (disclose fwd wampURI : Bool) :
@@ -455,19 +416,21 @@ theorem dispatch_aborts (env : DEnv) (s : DState) (caller : SessKey) (req : Nat)
 theorem syncCall_aborts (env : DEnv) (s : DState) (caller : SessKey) (req : Nat) (opts : Dict) (proc : String)
     (args : List WVal) (kw : Dict) (rnd : Nat) :
     ∀ k ∈ (syncCall env s caller req opts proc args kw rnd).aborts, k = caller := by
-  have hnp : (noProc env s caller req).aborts = [] := by
-    unfold noProc
-    split
-    · exact syncCancel_aborts ..
-    · rfl
   rw [syncCall_eq]
   split
-  · rw [hnp]; simp
   · split
-    · rw [hnp]; simp
+    · simp
+    · split
+      · simp [progressAbort]
+      · unfold laterChunk
+        simp only
+        rw [dispatch_aborts]; simp
+  · split
+    · simp
     · split
       · simp
       · split
+        · simp [progressAbort]
         · split
           · simp
           · rw [firstChunk_eq]
@@ -475,11 +438,6 @@ theorem syncCall_aborts (env : DEnv) (s : DState) (caller : SessKey) (req : Nat)
             · simp
             · simp
             · rw [dispatch_aborts]; simp
-        · split
-          · simp
-          · unfold laterChunk
-            simp only
-            rw [dispatch_aborts]; simp
 
 theorem syncRegister_aborts (s : DState) (callee : SessKey) (req : Nat) (proc m invoke : String)
     (disclose fwd wampURI : Bool) : (syncRegister s callee req proc m invoke disclose fwd wampURI).aborts = [] := by
@@ -536,7 +494,7 @@ theorem syncRemoveSession_refs_sub {env : DEnv} {s : DState} (h : DealerInv s) (
     exact ⟨Or.inr (Or.inl ⟨c, h1, he⟩), he ▸ h2⟩
   · obtain ⟨w, hw, hws⟩ := hinvs v hv
     simp only [Invk.shapeC, Prod.mk.injEq] at hws
-    exact ⟨Or.inr (Or.inr (Or.inl ⟨w, hw, hws.2.2.trans he⟩)), he ▸ syncRemoveSession_no_inv h k v hv⟩
+    exact ⟨Or.inr (Or.inr (Or.inl ⟨w, hw, hws.2.2.1.trans he⟩)), he ▸ syncRemoveSession_no_inv h k v hv⟩
   · obtain ⟨d', pubs, hrr, _, _, hd'⟩ := removeRegs_all h k
     have hix : (syncRemoveSession env s k).st.d.index = idxDrop s.d.index k := by
       unfold syncRemoveSession
